@@ -26,6 +26,11 @@ def main():
         mgr.logger.enable_console = False
     except Exception:
         pass
+    # the fake run has a frozen clock: no periodic section.  On a loaded machine a scenario can take longer than the 5 s of
+    # the ACTIVE_CLIENTS period, whose CLIENT_INFO frames a subscriber to everything would then see: switch the periods off
+    for obj, name in ((mgr, "min_timing_message_period"), (type(mgr), "TRAFFIC_INTERVAL"), (type(mgr), "INFO_INTERVAL")):
+        if hasattr(obj, name):
+            setattr(obj, name, 1e9)
     crash = []
 
     def run():
